@@ -732,7 +732,21 @@ def check_step(name, vals, prev, new):
         for u, v in new.edges:
             nbr[u].add(v)
         found = False
-        if len(SA) <= a and len(SB) <= b:
+        others_right = [v for v in range(1, new.R + 1) if v not in SB]
+        if (len(SA) <= a and len(SB) <= b and a <= new.L and b <= new.R
+                and math.comb(len(others_right), b - len(SB)) < math.comb(new.L - len(SA), a - len(SA))):
+            # the same question asked from the right side, which has fewer candidate sets (many left vertices)
+            nbr_right = {v: set() for v in range(1, new.R + 1)}
+            for u, v in new.edges:
+                nbr_right[v].add(u)
+            for extra in itertools.combinations(others_right, b - len(SB)):
+                common = set(range(1, new.L + 1))
+                for v in list(SB) + list(extra):
+                    common &= nbr_right[v]
+                if SA <= common and len(common) >= a:
+                    found = True
+                    break
+        elif len(SA) <= a and len(SB) <= b:
             others = [u for u in range(1, new.L + 1) if u not in SA]
             for extra in itertools.combinations(others, a - len(SA)):
                 A = list(SA) + list(extra)
